@@ -244,6 +244,7 @@ RULES = [
     ("R-C14-interleave", 60, "F^2,F interleave on the writer side", make_c_rule("R-C14-interleave")),
     ("R-C14-reader", 30, "reader side, Iq uses the reported volume", rule_reader),
     ("R-C14-gauss-tables", 9, "quadrature tables are Gauss-Legendre rules on [-1, 1]: weights sum to 2, symmetric; nodes antisymmetric", _x3.rule_gauss_tables),
+    ("R-C14-q0", 18, "Fq interpreted symbolically at q = 0: F1^2 = F2 (the two quadratures are normalised alike)", _x3.rule_c14_q0),
     ("R-C14-fastpath", 55, "equality-guarded special branches of model code agree with the general branch at the same point", _x3.rule_c14_fastpath),
     ("R-C14-minmax", 18, "min/max effective-radius modes select by the ordering of their own candidates", _x3.rule_c14_minmax),
     ("R-C14-degenerate", 100, "denominators of the radius/volume functions that vanish at equal parameters are guarded", _x3.rule_c14_degenerate),
@@ -252,7 +253,7 @@ RULES = [
 
 
 from . import shared
-RULES = RULES + shared.bundle('C14', ['intdiv', 'drivers', 'gpu', 'gate', 'restart', 'driver', 'norm', 'loops'], ['kernel'])
+RULES = RULES + shared.bundle('C14', ['tablebounds', 'intdiv', 'drivers', 'gpu', 'gate', 'restart', 'driver', 'norm', 'loops'], ['kernel'])
 from . import folds as _folds
 RULES = RULES + [_folds.fold_rule('C14')]
 from .. import refs as _refs
